@@ -1355,7 +1355,29 @@ fn c17_strings(rng: &mut Rng, k: u64, valid_zone: &[String], valid_hosts: &[Stri
         }
         _ => {
             // structured extremes
-            match rng.below(8) {
+            match rng.below(12) {
+                8..=11 => {
+                    // one unit repeated 1 .. 260,000 times (log-uniform), alone or between a valid head and tail:
+                    // whatever the parser does per line / per token, it must not do it on the stack
+                    const UNITS: [&str; 22] = [
+                        "\n", " \n", "\t\n", "\r\n", "; c\n", ";\n", "#c\n", "$ORIGIN a.\n", "$INCLUDE x\n", "(\n", ")\n", "( ", ") ", "a 1 IN A 1.2.3.4\n", " 1 IN A 1.2.3.4\n",
+                        "@ ", "\"\" ", "\\\n", "1.2.3.4 h\n", "* ", "a\n", "x 1 IN TXT (\n",
+                    ];
+                    let unit = *rng.pick(&UNITS);
+                    let bits = rng.range(0, 17);
+                    let n = (1usize << bits) + rng.below(1usize << bits);
+                    let mut s = String::with_capacity(unit.len() * n + 128);
+                    if rng.bool() {
+                        s.push_str("$ORIGIN example.\n@ 300 IN SOA ns admin 1 2 3 4 5\n");
+                    }
+                    for _ in 0..n {
+                        s.push_str(unit);
+                    }
+                    if rng.bool() {
+                        s.push_str("www 300 IN A 10.0.0.1\n");
+                    }
+                    s
+                }
                 0 => "(".repeat(rng.range(1, 100_000)),
                 1 => format!("x. 300 IN TXT \"{}", "a".repeat(rng.range(1, 1 << 20))),
                 2 => format!("{} 300 IN A 1.2.3.4", "a.".repeat(rng.range(1, 5000))),
@@ -1409,7 +1431,8 @@ fn c17(args: Args) {
          numbers, 60..300-character labels, NUL, BOM, CR, non-ASCII letters and digits; grammar-aware mutations (delete / \
          duplicate / swap / replace a token, open a quote or parenthesis, dangling backslash) and cuts at random byte offsets \
          of valid generated zone and hosts files; structured extremes (10^5 open parentheses, 1 MiB token, thousands of \
-         labels, huge numbers); each through Zone::deserialise and Hosts::deserialise on 2 MiB threads in a watched \
+         labels, huge numbers; one line- or token-level unit - blank, comment, directive, parenthesis, record, escape - repeated \
+         up to 260,000 times); each through Zone::deserialise and Hosts::deserialise on 2 MiB threads in a watched \
          subprocess; a sample written to disk and loaded through load_zone_configuration. non-trivial = string of >= 1 \
          non-whitespace token; distinct = distinct strings.",
     );
